@@ -55,3 +55,23 @@ Definition chk_cyc_amp_gm (c : nat * Q * list Q * list Q * list Q * Q) : bool :=
   let '(e, ncyc, xs, ys, out, rtol) := c in
   let m := map2 Qmult (cyc_amp_pow e ncyc xs) (cyc_amp_pow e ncyc ys) in
   close_list (rtol * qabsmax m) (map Qred m) (map (fun v => npow v (2 * e)) out).
+
+(** * the same cases against the LITERAL transcription of the numpy pipeline (model/M_peaks_pipeline.v), which
+    proofs/P_peaks_pipeline.v proves equal to the declarative model for all series over R *)
+From EQ Require Import model.M_peaks_pipeline.
+(** C11: (ptype, series, implementation indices), integer and rational series *)
+Definition chk_peaks_pipeline (c : nat * list Z * list nat) : bool :=
+  let '(pt, xs, out) := c in eq_nat_list (get_peak_array_indices_p pt (zs xs)) out.
+Definition chk_peaks_pipeline_q (c : nat * list Q * list nat) : bool :=
+  let '(pt, xs, out) := c in eq_nat_list (get_peak_array_indices_p pt xs) out.
+(** C12: (keep_adj_zeros, tol, series, implementation indices); tol = 0 and tol > 0 (the tolerance loop) *)
+Definition chk_zc_pipeline (c : bool * Q * list Q * list nat) : bool :=
+  let '(keep, tol, xs, out) := c in eq_nat_list (zero_crossings_tol_p keep tol xs) out.
+(** C12: (tol, series, implementation indices): the Python loop of get_switched_peak_array_indices *)
+Definition chk_sp_pipeline (c : Q * list Q * list nat) : bool :=
+  let '(tol, xs, out) := c in eq_nat_list (switched_peaks_p tol xs) out.
+(** clean_out_non_changing: (series, implementation cleaned_values, implementation non_zero_indices) - the two intermediate
+    arrays of the pipeline, including the duplicated index 0 when values[0] <> 0 *)
+Definition chk_clean_pipeline (c : list Q * list Q * list nat) : bool :=
+  let '(xs, cv, nzi) := c in
+  let '(mcv, mnzi) := clean_out_non_changing_p xs in close_list 0 mcv cv && eq_nat_list mnzi nzi.
